@@ -18,6 +18,11 @@ type traceScen struct {
 	cutAt    []int
 }
 
+// traceScenFromReq recovers the chunking description from a stored request (replay files).
+func traceScenFromReq(q runReq) *traceScen {
+	return &traceScen{req: q, cutEvery: q.CutEvery, cutAt: q.CutAt}
+}
+
 var traceLens = []int{0, 0, 1, 2, 3, 4, 5, 7, 8, 8, 11, 12, 13, 15, 16, 17, 20, 28, 31, 32, 33, 47, 48, 60, 64, 100,
 	239, 240, 241, 255, 256, 1000, 4079, 4080, 4096, 5000, 65519, 65520, 65536, 70001}
 
@@ -104,6 +109,7 @@ func (s *traceScen) setCuts(rnd *rand.Rand, total int) {
 	}
 	s.req.Cuts = append(s.req.Cuts, s.cutAt...)
 	sort.Ints(s.req.Cuts)
+	s.req.CutEvery, s.req.CutAt = s.cutEvery, s.cutAt
 }
 
 // events turns one recorded run into the NDJSON events of TracePacketConn.
